@@ -75,11 +75,11 @@ class P:
             return node
         j = self.i
         s = self.s
-        while j < len(s) and s[j].isdigit():
+        while j < len(s) and s[j].isdecimal():          # decimal digits only: superscripts etc. are not numbers
             j += 1
         if j < len(s) and s[j] == '.':
             k = j + 1
-            while k < len(s) and s[k].isdigit():
+            while k < len(s) and s[k].isdecimal():
                 k += 1
             if k == j + 1:
                 if j > self.i:
@@ -116,7 +116,7 @@ def parse(s):
 
 def has_trailing_dot_number(s):
     for i, c in enumerate(s):
-        if c == '.' and i > 0 and s[i - 1].isdigit() and not (i + 1 < len(s) and s[i + 1].isdigit()):
+        if c == '.' and i > 0 and s[i - 1].isdecimal() and not (i + 1 < len(s) and s[i + 1].isdecimal()):
             return True
     return False
 
